@@ -26,6 +26,8 @@ Definition civil_from_days (z0 : Z) : Z * Z * Z :=
 
 Definition is_leap (y : Z) : bool := andb (y mod 4 =? 0) (orb (negb (y mod 100 =? 0)) (y mod 400 =? 0)).
 Definition year_length (y : Z) : Z := if is_leap y then 366 else 365.
+Definition month_len (y m : Z) : Z :=
+  if m =? 2 then (if is_leap y then 29 else 28) else if (m =? 4) || (m =? 6) || (m =? 9) || (m =? 11) then 30 else 31.
 Definition ord_epoch : Z := 719163.                    (* python date.toordinal() of 1970-01-01 *)
 Definition ord_of (y m d : Z) : Z := days_from_civil y m d + ord_epoch.
 Definition civil_of_ord (o : Z) : Z * Z * Z := civil_from_days (o - ord_epoch).
